@@ -344,7 +344,9 @@ def enumerate_calls(trace_file):
             cur = {"steps": [], "open": None, "q": False}
             out[ev["name"]] = cur
         elif e == "Note" and ev.get("what") == "quiescent-begin":
-            cur["q"] = True
+            cur["q"] = True       # the passes / cleanups a Quiescent step runs are not steps of the path
+        elif e == "Quiescent":
+            cur["q"] = False
         elif e == "Begin" and ev["controller"] in CTRL and not cur["q"] and cur["open"] is None:
             cur["open"] = {"kind": CTRL[ev["controller"]], "calls": [], "seen": collections.Counter()}
         elif e == "End" and ev["controller"] in CTRL and cur["open"] is not None and CTRL[ev["controller"]] == cur["open"]["kind"]:
